@@ -15,6 +15,7 @@ import operator
 
 import common
 from common import enc, dec, err_kind
+from props import c07_hist as H
 
 ID = "C07"
 RULE = ("random expression trees (depth<=3 quick / <=4 thorough) over Laurent polynomials with support in [-4,6] and "
@@ -250,7 +251,61 @@ def generate(rng, tier, scale=1):
         cases.append(_gen_eq(rng))
     for i in range(n_lag):
         cases.append(_gen_lagrange(rng, 5 if quick else 7))
-    return cases
+    if scale == 1:
+        cases.extend(_big_cases(rng, tier))
+    # histories (shared, mutated and re-used objects; numerically equal arguments of different types) come first: the
+    # first H.ISO_ALWAYS of them run in a fresh process each, before this process has touched the library
+    return H.gen_hist(rng, tier, scale) + cases
+
+
+def _big_cases(rng, tier):
+    """large parameters with cheap exact arithmetic: powers, orders and supports around 63/64/65, 127/128/129 and
+    4095/4096/4097 (monomial powers, binomial powers, dense products, Horner on dense and on sparse supports with
+    merged steps, n-th derivatives, composition, item assignment far out, interpolators on 16/17 (33) points)"""
+    quick = tier == "quick"
+    out = []
+    small = [1, -1, 2, -2, 3, "1/2", "-1/2", "3/2"]
+
+    def dense(n):
+        return ["list", [rng.choice(small) for _ in range(n + 1)]]
+
+    def ex(t, vs=(1, -1, 2, "1/2"), ks=(0, 64, 4096)):
+        out.append({"entry": "expr", "expr": t, "vs": list(vs), "ks": list(ks), "big": True})
+    sizes = [63, 64, 65] + ([] if quick else [127, 128, 129, 255, 256, 257])
+    for n in [63, 64, 65, 127, 128, 129, 4095, 4096, 4097, -63, -64, -65, -4096]:
+        ex(["pow", ["dict", [[rng.choice([1, -1, 2]), rng.choice(["1/2", -2, "3/2", 1])]]], n], vs=(1, -1, 2))
+    for n in sizes:
+        ex(["pow", ["list", [1, 1]], n])
+        ex(["pow", ["dict", [[0, 1], [1, "-1/2"]]], n], vs=(1, 2, "1/2"))
+        ex(["pow", ["dict", [[-1, 1], [1, 1]]], n], vs=(1, -1, 2))
+    for a, b in [(63, 64), (64, 65)] + ([(33, 127)] if quick else [(127, 128), (128, 129)]):
+        ex(["mul", dense(a), dense(b)], vs=(1, -1, "1/2"))
+        ex(["sub", ["mul", dense(a), dense(b)], dense(a + b)], vs=(1, -1))
+    for n in [63, 64, 65, 127, 128, 129, 255, 256, 257] + ([] if quick else [1023, 1024, 1025]):
+        ex(dense(n), vs=(1, -1, 2, "1/2", "-3/2"), ks=(0, n, n + 1))
+    sparse = [0, 1, 63, 64, 65, 127, 128, 129, 4095, 4096, 4097]
+    for _ in range(3 if quick else 12):
+        ks = sorted(rng.sample(sparse, rng.randint(4, 9)))
+        p = ["dict", [[k, rng.choice(small)] for k in rng.sample(ks, len(ks))]]
+        ex(p, vs=(1, -1, 2, "1/2"), ks=(0, 64, 4096, 4097))
+        lp = ["dict", [[k * rng.choice([1, -1]), rng.choice(small)] for k in rng.sample(ks, len(ks)) if k]]
+        ex(lp, vs=(1, -1, 2, "-1/2"))
+        for d in (63, 64, 65):
+            ex(["diff", p, d], vs=(1, -1))
+        ex(["integ", p], vs=(1, -1))
+        ex(["mul", p, lp], vs=(1, -1, 2))
+        ex(["setitem", dense(64), rng.choice([4095, 4096, 4097, -4096]), rng.choice(small + [0])], vs=(1, 2))
+    for n in (63, 64, 65):
+        ex(["comp", ["dict", [[n, 1], [n - 1, -1], [0, 1]]], ["list", [1, 1]]], vs=(1, -1, "1/2"))
+        ex(["comp", ["dict", [[n, 1], [1, 2]]], ["dict", [[-1, "1/2"]]]], vs=(1, 2))
+        ex(["integ", dense(n)], vs=(1, -1))
+        ex(["diff", dense(n), n - 1], vs=(1, 2))
+    for n in ([16, 17] if quick else [16, 17, 32, 33]):
+        xs = list(range(n))
+        rng.shuffle(xs)
+        out.append({"entry": "lagrange", "pairs": [[x, rng.choice(small)] for x in xs], "ks": ["1/2", -1, n], "big": True})
+        out.append({"entry": "lagrange", "pairs": [[enc(F(x, 2)), rng.choice(small)] for x in xs], "ks": ["1/3"], "big": True})
+    return out
 
 
 def _fixed_cases():
@@ -487,6 +542,16 @@ def _laws(c):
 
 
 def impl(c):
+    if c["entry"] == "hist":
+        return H.impl(c)
+    return _impl_plain(c)
+
+
+def request(c):
+    return H.request(c) if c["entry"] == "hist" else c
+
+
+def _impl_plain(c):
     e = c["entry"]
     if e == "expr":
         del _BR[:]
@@ -579,6 +644,25 @@ def _prune(terms, tol):
 
 
 def compare(c, io, drv):
+    if c["entry"] == "hist":
+        return H.compare(c, io, drv)
+    out = _compare_plain(c, io, drv)
+    if out and not io.get("isolated"):
+        # a witness has to fail by itself: once more in a fresh process that has run nothing else
+        io2 = H.isolated(c)
+        if io2 is not None:
+            out2 = _compare_plain(c, io2, drv)
+            io.clear()
+            io.update(io2)
+            if not out2:
+                io["only_after_earlier_cases"] = True
+                return [(k, "only after the earlier cases of this run (agrees when run alone in a fresh process: the "
+                            "library keeps state somewhere): " + d) for k, d in out]
+            return out2
+    return out
+
+
+def _compare_plain(c, io, drv):
     out = []
     e = c["entry"]
     m, s = drv.get("model"), drv.get("spec")
@@ -684,6 +768,8 @@ def compare(c, io, drv):
 
 
 def nontrivial(c, io):
+    if c["entry"] == "hist":
+        return H.nontrivial(c, io)
     if "err" in io:
         return False
     e = c["entry"]
@@ -711,6 +797,10 @@ def _depth(t):
 def tally(eng, c, io):
     e = c["entry"]
     eng.count("entry", e)
+    if c.get("big"):
+        eng.count("big_case", (c["expr"][0] if e == "expr" else "lagrange, %d points" % len(c["pairs"])))
+    if e == "hist":
+        return H.tally(eng, c, io)
     eng.count("regime", "float (impl-injected, tol 1e-9)" if io.get("float") else "exact")
     if e == "expr":
         t = c["expr"]
@@ -798,6 +888,15 @@ def _shrink_tree(t):
 
 def shrink(c):
     e = c["entry"]
+    if e == "hist":
+        n = 0
+        for c2 in H.shrink(c):
+            if H.valid(c2):
+                yield c2
+                n += 1
+                if n >= 200:
+                    return
+        return
     if e == "expr":
         n = 0
         for t in _shrink_tree(c["expr"]):
@@ -865,6 +964,10 @@ def neighbours(c):
 
 def classify(c, io, drv):
     e = c["entry"]
+    if e == "hist":
+        return H.classify(c, io, drv)
+    if io.get("only_after_earlier_cases"):
+        return e + ":only-after-earlier-cases"
     if e == "lagrange":
         n = len(c["pairs"])
         f = io.get("func")
@@ -881,3 +984,6 @@ def classify(c, io, drv):
     if e == "eq":
         return "eq-hash"
     return "unclassified"
+
+
+H._IMPL_OTHER.update({"expr": _impl_plain, "laws": _impl_plain, "eq": _impl_plain, "lagrange": _impl_plain})
